@@ -86,11 +86,20 @@ def reader_getData(it, comp, args, kwargs, line):
     gcount(ctx, 'fetch_n', key)
     ctx.ghost['h_cur_req'] = name
     ctx.ghost['h_trees'] = 0
+    ctx.ghost['reader_calls'] = ctx.ghost.get('reader_calls', 0) + 1
+    kw = VDict()
+    for k_, v_ in kwargs.items():
+        kw.keys.append(k_)
+        kw.vals[k_] = v_
+    ctx.ghost['reader_last_kwargs'] = kw
+    ctx.ghost['reader_last_name'] = name
     d = ctx.choose(3, 'reader.getData@%s' % line)
     if d == 0:
         gset(ctx, 'fetch_res', key, lift('ok'))
         ctx.cover('reader.ok')
-        return (mk_fileinfo(it, 'fi'), it.fresh_str('text'))
+        res = (mk_fileinfo(it, 'fi'), it.fresh_str('text'))
+        ctx.ghost['reader_last'] = res
+        return res
     if d == 1:
         gset(ctx, 'fetch_res', key, lift('notfound'))
         raise_pkg(it, 'PySmiReaderFileNotFoundError', line)
@@ -241,7 +250,7 @@ GHOST_BY_METHOD = {
 
 
 def sp_ghost(it, args, kwargs):
-    if args[0] == 'puts_total' or args[0].startswith('h_') or args[0].startswith('opt_') or args[0].startswith('cb_'):
+    if args[0] == 'puts_total' or args[0].startswith(('h_', 'opt_', 'cb_', 'reader_')):
         return it.ctx.ghost.get(args[0], 0)
     return gmap(it.ctx, args[0])
 
